@@ -80,7 +80,10 @@ PROPS = {
         "PARTIAL. Proved: Newton results through the swap path always meet the stopping test, an exhausted budget is ConvergeError; "
         "output + fees never exceed the reserve; the exact-invariant oracle (integer polynomial, strictly increasing) is sound. "
         "Refuted with kernel-evaluated witnesses replayed on the implementation: 2-unit accuracy (F-ss-D: D stops at 1.0 whole "
-        "token) and the deposit-side D returned unconverged (F-d-core). Not proved: a universal accuracy bound for converged "
+        "token) and the deposit-side D returned unconverged (F-d-core). Proved for the swap path's y-iteration (NewtonAccuracy.v, "
+        "C19_y_iteration_solves_its_quadratic_within_two_newton_steps): the returned y is within one unit of an iterate t with "
+        "-2 g'(t) < g(t) <= g'(t) for the quadratic g it solves, so quote deviations come only from the coefficients (D, floors), "
+        "never from that iteration. Not proved: a universal accuracy bound for converged "
         "results in the supported range (a convergence analysis of two cascaded integer Newton iterations is out of reach here); "
         "that residue is covered only by the correspondence with the pinned model."),
     "C03": P("Props/C03.v", [("pool-scn", 48, 400), ("chain-pool", 32, 250), ("probe-scn", 18, 72)],
